@@ -31,9 +31,10 @@ type fdesc struct {
 }
 
 type c19Case struct {
-	Events []xmodel.Event `json:"events"`
-	Select string         `json:"select"` // query producing the node-set handed to Unmarshal
-	Target *tdesc         `json:"target"` // type pointed to by the value passed (struct, slice or pointer chain)
+	Events      []xmodel.Event `json:"events"`
+	Select      string         `json:"select"`                // query producing the node-set handed to Unmarshal
+	Target      *tdesc         `json:"target"`                // type pointed to by the value passed (struct, slice or pointer chain)
+	Prepopulate bool           `json:"prepopulate,omitempty"` // tagged slice fields of the top struct hold two elements before the call
 }
 
 var c19Fill = reg("C19", "c19-fill", checkC19)
@@ -268,6 +269,10 @@ func checkC19(c *c19Case) error {
 		for i, f := range base.Fields {
 			if f.Tag == "" {
 				target.Elem().Field(i).Set(sentinel(f.T.typ()))
+			} else if f.T.Kind == "slice" && c.Prepopulate {
+				// a tagged slice field that already holds elements: they must be replaced
+				fv := target.Elem().Field(i)
+				fv.Set(reflect.Append(fv, reflect.Zero(f.T.Elem.typ()), reflect.Zero(f.T.Elem.typ())))
 			}
 		}
 	}
@@ -317,11 +322,11 @@ func checkC19(c *c19Case) error {
 
 // ---- generation ----
 
-var intTags = []string{"count(*)", "count(node())", "string-length()", "7", "2.7", "count(@*)", "position()", "@n", "a[1]", "string-length(name())",
+var intTags = []string{"count(*)", "count(node())", "string-length()", "7", "2.7", "count(@*)", "position()", "@n", "a[1]", "string-length(name())", "last()", "position() + last()",
 	"200", "40000", "3000000000", "10000000000000000000", "18446744073709549568", "127", "255", "65535", "2147483647", "9007199254740993"}
 var signedTags = []string{"-3", "0 - count(*)", "-2.7"}
 var strTags = []string{"name()", ".", "@id", "normalize-space()", "concat(name(), '-', @id)", "a", "'lit'", "string(*[1])", "..", "text()"}
-var boolTags = []string{"a", "@id", "true()", "false()", "count(*) > 1", "not(*)", "'x'", "0"}
+var boolTags = []string{"a", "@id", "true()", "false()", "count(*) > 1", "not(*)", "'x'", "0", "'0'", "''", "number('x')", "string(@n)", "' '", "0 div 0", "-0", "'false'", "0.0", "string(nosuch)"}
 var floatTags = []string{"1.5", "count(*) div 2", "number(@id)", "@n", "-0.25", "1 div 0"}
 var nodeTags = []string{"*", "a", "b", ".", "*[1]", "..", "a | b", "*/*", "nosuch", "@*", "text()", "ancestor-or-self::*"}
 
@@ -345,7 +350,7 @@ func genField(t *rapid.T, depth int, idx int) fdesc {
 		f.T, f.Tag = &tdesc{Kind: kind}, pick(t, "intTag", append(append([]string{}, intTags...), signedTags...))
 	case k == 4:
 		kind := []string{"uint", "uint8", "uint16", "uint32", "uint64"}[rapid.IntRange(0, 4).Draw(t, "uintKind")]
-		f.T, f.Tag = &tdesc{Kind: kind}, pick(t, "uintTag", append(append([]string{}, intTags[:7]...), intTags[10:]...))
+		f.T, f.Tag = &tdesc{Kind: kind}, pick(t, "uintTag", append(append([]string{}, intTags[:7]...), intTags[12:]...))
 	case k == 5:
 		kind := []string{"float32", "float64"}[rapid.IntRange(0, 1).Draw(t, "floatKind")]
 		f.T, f.Tag = &tdesc{Kind: kind}, pick(t, "floatTag", floatTags)
@@ -549,6 +554,7 @@ func TestC19(t *testing.T) {
 		for i, n := 0, rapid.IntRange(0, 2).Draw(t, "targetPtrDepth"); i < n; i++ {
 			c.Target = &tdesc{Kind: "ptr", Elem: c.Target}
 		}
+		c.Prepopulate = rapid.IntRange(0, 3).Draw(t, "prepopulate") == 0
 		shape, interesting := shapeOf(c.Target)
 		st.Class("target=" + c.Target.Kind)
 		if interesting {
